@@ -80,14 +80,18 @@ def alternative_or_next(type_: Union[RDREdge.Alternative, RDREdge.Next],
     """
     new_branch = chained_logic(AND, *conditions)
     current_node = SymbolicExpression._current_parent_()
+    def climb(node: SymbolicExpression) -> SymbolicExpression:
+        # over everything that has been attached to the node since its block was opened (its refinement and the
+        # alternatives written before this one in the same block), the new branch comes after all of them.
+        while isinstance(node._parent_, (Alternative, Next, ExceptIf)) and node is node._parent_.left:
+            node = node._parent_
+        return node
+
+    # the current node may have been refined in its block already (it is then the left operand of an ExceptIf)
+    current_node = climb(current_node)
     if isinstance(current_node._parent_, (Alternative, Next)) and current_node is current_node._parent_.right:
         # the current node is itself an alternative/next branch, the new branch comes after the node it belongs to.
-        current_node = current_node._parent_
-    # climb over everything that has been attached to the current node since its block was opened (its refinement
-    # and the alternatives written before this one in the same block), the new branch comes after all of them.
-    while (isinstance(current_node._parent_, (Alternative, Next, ExceptIf))
-           and current_node is current_node._parent_.left):
-        current_node = current_node._parent_
+        current_node = climb(current_node._parent_)
     prev_parent = current_node._parent_
     current_node._parent_ = None
     if type_ == RDREdge.Alternative:
